@@ -47,4 +47,30 @@ theorem alignUp_spec (x k : Nat) (hk : k ≤ 64) (hx : x + (2 ^ k - 1) < 2 ^ 64)
   · rw [h3]; generalize a * (y / a) = q at *; omega
   · rw [h3]; generalize a * (y / a) = q at *; omega
 
+theorem and_half (x y : Nat) (h : x &&& y = 0) : (x / 2) &&& (y / 2) = 0 := by
+  apply Nat.eq_of_testBit_eq
+  intro i
+  have : (x &&& y).testBit (i + 1) = false := by rw [h]; simp
+  rw [Nat.testBit_and, Nat.testBit_add_one, Nat.testBit_add_one] at this
+  rw [Nat.testBit_and, this]; simp
+
+/-- the test `alignment & (alignment - 1)` of `parsec_arena_construct_ex` accepts exactly powers of two -/
+theorem pow2_of_and : ∀ (n a : Nat), a ≤ n → 0 < a → a &&& (a - 1) = 0 → ∃ k, a = 2 ^ k := by
+  intro n
+  induction n with
+  | zero => intro a h1 h2; omega
+  | succ n ih =>
+    intro a h1 h2 h
+    by_cases ha : a = 1
+    · exact ⟨0, by simp [ha]⟩
+    · have hh := and_half a (a - 1) h
+      rcases Nat.mod_two_eq_zero_or_one a with hr | hr
+      · have e : (a - 1) / 2 = a / 2 - 1 := by omega
+        rw [e] at hh
+        obtain ⟨k, hk⟩ := ih (a / 2) (by omega) (by omega) hh
+        exact ⟨k + 1, by rw [Nat.pow_succ, ← hk]; omega⟩
+      · have e : (a - 1) / 2 = a / 2 := by omega
+        rw [e, Nat.and_self] at hh
+        omega
+
 end ParsecVerif.Arena
